@@ -31,3 +31,30 @@ brk("c17-dir-capkey-salt-and-key-swapped", "dirnode.py",
     "    key = hashutil.mutable_rwcap_key_hash(salt, writekey)\n    encryptor = aes.create_encryptor(key)",
     "    key = hashutil.mutable_rwcap_key_hash(writekey, salt)\n    encryptor = aes.create_encryptor(key)",
     "_encrypt_rw_uri passes (writekey, salt) instead of (salt, writekey)")
+
+# ---- round 3: twins of seeded/C17-5 (clone paths) and seeded/C17-6 (secrets over the HTTP storage protocol)
+brk("c17-dir-clone-reuses-source-entries", "dirnode.py",
+    "    children = {}\n    for (namex, (node, metadata)) in list(childrenx.items()):\n"
+    "        precondition(isinstance(metadata, dict),\n"
+    "                     \"directory creation requires metadata to be a dict, not None\", metadata)\n"
+    "        children[normalize(namex)] = (node, metadata)\n",
+    "    children = childrenx if isinstance(childrenx, AuxValueDict) else {}\n"
+    "    for (namex, (node, metadata)) in ([] if children is childrenx else list(childrenx.items())):\n"
+    "        precondition(isinstance(metadata, dict),\n"
+    "                     \"directory creation requires metadata to be a dict, not None\", metadata)\n"
+    "        children[normalize(namex)] = (node, metadata)\n",
+    "twin of seeded/C17-5: A.list() passed as initial_children keeps A's pre-packed entries (slots under A's write key)")
+brk("c17-http-header-table-renew-cancel-exchanged", "storage/http_client.py",
+    "            (Secrets.LEASE_RENEW, lease_renew_secret),\n            (Secrets.LEASE_CANCEL, lease_cancel_secret),\n",
+    "            (Secrets.LEASE_RENEW, lease_cancel_secret),\n            (Secrets.LEASE_CANCEL, lease_renew_secret),\n",
+    "twin of seeded/C17-6: every HTTP request carries renew and cancel secrets exchanged")
+brk("c17-http-add-lease-renew-cancel-exchanged", "storage/http_client.py",
+    "            \"PUT\",\n            url,\n            lease_renew_secret=renew_secret,\n            lease_cancel_secret=cancel_secret,\n",
+    "            \"PUT\",\n            url,\n            lease_renew_secret=cancel_secret,\n            lease_cancel_secret=renew_secret,\n",
+    "only add_lease over HTTP exchanges the secrets: the checker's add-lease creates a second, unspecified lease")
+brk("c17-http-mutable-write-renew-cancel-exchanged", "storage/http_client.py",
+    "            write_enabler_secret=write_enabler_secret,\n            lease_renew_secret=lease_renew_secret,\n"
+    "            lease_cancel_secret=lease_cancel_secret,\n            message_to_serialize=message,\n",
+    "            write_enabler_secret=write_enabler_secret,\n            lease_renew_secret=lease_cancel_secret,\n"
+    "            lease_cancel_secret=lease_renew_secret,\n            message_to_serialize=message,\n",
+    "only mutable read-test-write over HTTP exchanges the secrets")
